@@ -33,7 +33,7 @@ func genC12(t *rapid.T) C12Case {
 		BadVars:  rapid.IntRange(0, 3).Draw(t, "badvars") == 0,
 		Custom:   true, Stateful: true, Consts: true, Aliases: true,
 	}}
-	tree := wrapRoot(g.Expr(rootTy(t), g.Depth))
+	tree := wrapRoot(g.Program(rootTy(t)))
 	fixEmptyLists(tree)
 	u := UniverseFor(t, tree, false)
 	c := C12Case{U: *u, Tree: tree, Costs: genCosts(t, tree, finiteCosts),
